@@ -12,3 +12,18 @@ pub mod log {
 }
 #[allow(unused_imports)]
 use log::{debug, error, info, trace};
+
+// Panicking macros are NOT dropped: they resolve to stand-ins whose precondition is `false` (or the asserted
+// condition), so Verus must prove them unreachable / true. This is how "never panics" becomes an obligation.
+#[allow(unused_macros)]
+macro_rules! unreachable { ($($t:tt)*) => { crate::vx_panic() }; }
+#[allow(unused_macros)]
+macro_rules! assert_eq { ($a:expr, $b:expr $(, $($t:tt)*)?) => { crate::vx_assert($a == $b) }; }
+#[allow(unused_macros)]
+macro_rules! assert_ne { ($a:expr, $b:expr $(, $($t:tt)*)?) => { crate::vx_assert($a != $b) }; }
+#[allow(unused_macros)]
+macro_rules! debug_assert { ($c:expr $(, $($t:tt)*)?) => { crate::vx_assert($c) }; }
+#[allow(unused_macros)]
+macro_rules! debug_assert_eq { ($a:expr, $b:expr $(, $($t:tt)*)?) => { crate::vx_assert($a == $b) }; }
+#[allow(unused_macros)]
+macro_rules! debug_assert_ne { ($a:expr, $b:expr $(, $($t:tt)*)?) => { crate::vx_assert($a != $b) }; }
